@@ -42,6 +42,7 @@ Refs(e) ==
     [] e.t = "agg"  -> Refs(e.e)
     [] e.t = "in"   -> Refs(e.e) \cup Refs(e.lo) \cup Refs(e.hi)
     [] e.t = "call" -> UNION { Refs(e.args[i]) : i \in Idx(e.args) }
+    [] e.t = "badcall" -> { [q |-> "?", name |-> "?"] }          \* never in scope: an ill-formed call
     [] OTHER        -> {}
 
 \* "ok": every reference denotes exactly one column; "none": some reference
@@ -274,8 +275,13 @@ TakeGroups(groups, pos, lo, hi) ==     \* pos = position of first row of Head(gr
 \* schema : [t |-> <<"k","a","b">>, ...]
 InitState(ndb) ==
   [ frame |-> <<>>, W |-> [d \in 1 .. ndb |-> {}], dirs |-> <<>>, status |-> "init",
-    known |-> TRUE, win |-> NoWin, grouped |-> FALSE, loose |-> FALSE, inputs |-> <<>>, osort |-> FALSE ]
+    known |-> TRUE, win |-> NoWin, grouped |-> FALSE, loose |-> FALSE, inputs |-> <<>>, osort |-> FALSE,
+    \* declarations in scope: let-bound relations [name, steps] and user functions
+    \* [name, params, named: Seq([n, d]), body], in declaration order
+    env |-> <<>>, fns |-> <<>> ]
 
+\* the state a nested pipeline (join / append operand, let-bound relation) starts from
+Fresh(st) == [InitState(Len(st.W)) EXCEPT !.env = st.env, !.fns = st.fns]
 Err(st)   == [st EXCEPT !.status = "error"]
 \* outcome of a scope check that failed
 Bad(st, sc) == [st EXCEPT !.status = IF sc = "keyclash" THEN "unsup" ELSE "error"]
@@ -516,7 +522,7 @@ JoinRows(lrows, rrows, nl, nr, side, match(_, _)) ==
            ELSE <<>>)
 
 Join(st, s, dbs, schema) ==
-  LET r0 == RunPipe(InitState(Len(st.W)), s.with, dbs, schema)
+  LET r0 == RunPipe(Fresh(st), s.with, dbs, schema)
       rfr == [i \in Idx(r0.frame) |-> [r0.frame[i] EXCEPT !.src = IF s.alias # "" THEN s.alias ELSE r0.frame[i].src]]
       fr == st.frame \o rfr
       nl == Len(st.frame)
@@ -556,7 +562,7 @@ Join(st, s, dbs, schema) ==
                  : p \in { q \in st.W[d] \X r0.W[d] : NsJoin(q[1].ns, q[2].ns) # "clash" } }] ]
 
 AppendT(st, s, dbs, schema) ==
-  LET r0 == RunPipe(InitState(Len(st.W)), s.with, dbs, schema)
+  LET r0 == RunPipe(Fresh(st), s.with, dbs, schema)
       strip(rows) == [i \in Idx(rows) |-> [rows[i] EXCEPT !.key = <<>>]]
   IN
   IF r0.status # "ok" THEN [st EXCEPT !.status = r0.status]
@@ -570,8 +576,79 @@ AppendT(st, s, dbs, schema) ==
                { [ns |-> NsJoin(p[1].ns, p[2].ns), rows |-> strip(p[1].rows) \o strip(p[2].rows)]
                  : p \in { q \in st.W[d] \X r0.W[d] : NsJoin(q[1].ns, q[2].ns) # "clash" } }] ]
 
-ApplyStep(st, s, dbs, schema) ==
-  IF st.status = "init" THEN (IF s.op = "from" THEN From(st, s, dbs, schema) ELSE Err(st))
+\* `from x` where x is a let-bound relation (let x = (...), `... | into x`,
+\* module m { let x = ... } referred to as m.x): the relation the named
+\* pipeline denotes, evaluated with the declarations that precede it; it keeps
+\* its order; its columns are known under the name (or the alias)
+EnvIdx(st, name) == { i \in Idx(st.env) : st.env[i].name = name }
+FromLet(st, s, dbs, schema) ==
+  LET i == CHOOSE i \in EnvIdx(st, s.t) : \A j \in EnvIdx(st, s.t) : j <= i
+      sub0 == [Fresh(st) EXCEPT !.env = SubSeq(st.env, 1, i - 1)]
+      r0 == RunPipe(sub0, st.env[i].steps, dbs, schema)
+      \* the last component of a module path is the relation's name
+      src == IF s.alias # "" THEN s.alias ELSE st.env[i].short
+  IN IF r0.status # "ok" THEN [st EXCEPT !.status = r0.status]
+     ELSE [ st EXCEPT
+       !.frame = [k \in Idx(r0.frame) |-> [r0.frame[k] EXCEPT !.src = src]],
+       !.W = r0.W, !.dirs = r0.dirs, !.loose = r0.loose, !.known = TRUE,
+       !.inputs = << src >>, !.status = "ok" ]
+
+\* ---- user functions: a call is replaced by the body with the parameters
+\* substituted (beta-reduction) before anything is evaluated ----
+FnIdx(fns, name) == { i \in Idx(fns) : fns[i].name = name }
+BadCall == [t |-> "badcall"]
+RECURSIVE SubstE(_, _)
+\* bind: function from parameter name to expression
+SubstE(e, bind) ==
+  CASE e.t = "col"  -> IF e.q = "" /\ e.name \in DOMAIN bind THEN bind[e.name] ELSE e
+    [] e.t = "bin"  -> [e EXCEPT !.l = SubstE(e.l, bind), !.r = SubstE(e.r, bind)]
+    [] e.t = "un"   -> [e EXCEPT !.e = SubstE(e.e, bind)]
+    [] e.t = "case" -> [e EXCEPT !.arms = [k \in Idx(e.arms) |-> [c |-> SubstE(e.arms[k].c, bind), v |-> SubstE(e.arms[k].v, bind)]]]
+    [] e.t = "agg"  -> [e EXCEPT !.e = SubstE(e.e, bind)]
+    [] e.t = "in"   -> [e EXCEPT !.e = SubstE(e.e, bind), !.lo = SubstE(e.lo, bind), !.hi = SubstE(e.hi, bind)]
+    [] e.t = "call" -> [e EXCEPT !.args = [k \in Idx(e.args) |-> SubstE(e.args[k], bind)],
+                                  !.named = [k \in Idx(e.named) |-> [n |-> e.named[k].n, e |-> SubstE(e.named[k].e, bind)]]]
+    [] OTHER        -> e
+RECURSIVE InlineE(_, _)
+InlineE(e, fns) ==
+  CASE e.t = "bin"  -> [e EXCEPT !.l = InlineE(e.l, fns), !.r = InlineE(e.r, fns)]
+    [] e.t = "un"   -> [e EXCEPT !.e = InlineE(e.e, fns)]
+    [] e.t = "case" -> [e EXCEPT !.arms = [k \in Idx(e.arms) |-> [c |-> InlineE(e.arms[k].c, fns), v |-> InlineE(e.arms[k].v, fns)]]]
+    [] e.t = "agg"  -> [e EXCEPT !.e = InlineE(e.e, fns)]
+    [] e.t = "in"   -> [e EXCEPT !.e = InlineE(e.e, fns), !.lo = InlineE(e.lo, fns), !.hi = InlineE(e.hi, fns)]
+    [] e.t = "call" ->
+         IF FnIdx(fns, e.f) = {} THEN BadCall
+         ELSE LET i == CHOOSE i \in FnIdx(fns, e.f) : \A j \in FnIdx(fns, e.f) : j <= i
+                  f == fns[i]
+                  args == [k \in Idx(e.args) |-> InlineE(e.args[k], fns)]
+                  namedOk == \A k \in Idx(e.named) : \E m \in Idx(f.named) : f.named[m].n = e.named[k].n
+                  pbind == [p \in { f.params[k] : k \in Idx(f.params) } |->
+                              args[CHOOSE k \in Idx(f.params) : f.params[k] = p]]
+                  nval(m) == IF \E k \in Idx(e.named) : e.named[k].n = f.named[m].n
+                             THEN InlineE(e.named[CHOOSE k \in Idx(e.named) : e.named[k].n = f.named[m].n].e, fns)
+                             ELSE f.named[m].d
+                  nbind == [p \in { f.named[m].n : m \in Idx(f.named) } |->
+                              nval(CHOOSE m \in Idx(f.named) : f.named[m].n = p)]
+                  bind == [p \in DOMAIN pbind \cup DOMAIN nbind |-> IF p \in DOMAIN pbind THEN pbind[p] ELSE nbind[p]]
+                  \* the body may call functions declared before f
+                  body == InlineE(f.body, SubSeq(fns, 1, i - 1))
+              IN \* too many / too few positional arguments, or an unknown named argument: ill-formed
+                 IF Len(e.args) # Len(f.params) \/ ~namedOk THEN BadCall
+                 ELSE SubstE(body, bind)
+    [] OTHER        -> e
+
+InlineItems(items, fns) == [k \in Idx(items) |-> [items[k] EXCEPT !.e = InlineE(items[k].e, fns)]]
+InlineStep(s, fns) ==
+  IF fns = <<>> THEN s
+  ELSE CASE s.op \in {"select", "derive", "aggregate"} -> [s EXCEPT !.items = InlineItems(s.items, fns)]
+         [] s.op = "filter" -> [s EXCEPT !.e = InlineE(s.e, fns)]
+         [] s.op = "sort"   -> [s EXCEPT !.keys = [k \in Idx(s.keys) |-> [s.keys[k] EXCEPT !.e = InlineE(s.keys[k].e, fns)]]]
+         [] s.op = "join"   -> IF s.on.t = "eqcol" THEN s ELSE [s EXCEPT !.on = InlineE(s.on, fns)]
+         [] OTHER -> s
+
+ApplyStep(st, s0, dbs, schema) ==
+  LET s == InlineStep(s0, st.fns) IN
+  IF st.status = "init" THEN (IF s.op = "from" THEN (IF EnvIdx(st, s.t) # {} THEN FromLet(st, s, dbs, schema) ELSE From(st, s, dbs, schema)) ELSE Err(st))
   ELSE IF st.status # "ok" THEN st
   ELSE CASE s.op = "select"    -> Select(st, s)
          [] s.op = "derive"    -> Derive(st, s)
